@@ -27,6 +27,8 @@
             &&& nfa.match_kind == old(self).match_kind
             &&& nfa_tree(nfa) && nfa_links(nfa, lm_of(old(self).match_kind)) && nfa_outs_ok(nfa) && nfa.states@.len() > 2
             &&& sound_facts(nfa)
+            // leftmost kinds: the link / output-position facts from which the optimality of the leftmost stream follows (unit lm_opt_bw)
+            &&& !(old(self).match_kind is Standard) ==> lm_opt_facts(nfa)
             &&& trie_ok(nfa) && reach_ok(nfa) && add_inv(nfa) && seen_is(nfa, into_items(patvals), into_items(patvals).len() as int)
             // the mapper covers every label of the NFA with a distinct code below alphabet_size
             &&& mapper_covers(nfa, final(self).mapper.table@, final(self).mapper.alphabet_size)
@@ -189,6 +191,7 @@
         lemma_frame_keeps_trie(n_a, nfa);
         lemma_frame_keeps_add_inv(n_a, nfa);
         lemma_sound_facts_intro(nfa);
+        if !(self.match_kind is Standard) { lemma_lm_opt_facts_intro(nfa); }
         lemma_frame_keeps_values(n_a, nfa, items, items.len() as int);
         assert(fails_ok(nfa, lm_of(self.match_kind))) by { lemma_links_same_fail(n_f, nfa, lm_of(self.match_kind)); }
         lemma_trie_gives_tree(nfa);
